@@ -2067,15 +2067,15 @@ class Field(_FieldIO):
         # Preparation (padding) for computing the derivative, depending on the
         # boundary conditions (PBC, Neumann, or no BC). Depending on the BC,
         # the field array is padded.
-        if direction in self.mesh.bc:  # PBC
-            pad_width = {direction: (1, 1)}
-            padding_mode = "wrap"
-        elif self.mesh.bc == "neumann":
+        if self.mesh.bc == "neumann":
             pad_width = {direction: (1, 1)}
             padding_mode = "symmetric"
         elif self.mesh.bc == "dirichlet":
             pad_width = {direction: (1, 1)}
             padding_mode = "constant"
+        elif direction in self.mesh.bc:  # PBC
+            pad_width = {direction: (1, 1)}
+            padding_mode = "wrap"
         else:  # No BC - no padding
             pad_width = {}
             padding_mode = "constant"
@@ -2339,8 +2339,12 @@ class Field(_FieldIO):
 
         direction_idx = self.mesh.region._dim2index(direction)
 
-        # If direction is periodic pad the field
-        if direction in self.mesh.bc:
+        # If direction is periodic pad the field. 'neumann' and 'dirichlet' name a
+        # boundary condition; they are not lists of periodic directions.
+        periodic = (
+            self.mesh.bc not in ("neumann", "dirichlet") and direction in self.mesh.bc
+        )
+        if periodic:
             field = self.pad({direction: (1, 1)}, mode="wrap")
         else:
             field = self
@@ -2370,7 +2374,7 @@ class Field(_FieldIO):
                 )
 
         # Remove the padding if periodic is True
-        if direction in self.mesh.bc:
+        if periodic:
             slices = field.mesh.region2slices(self.mesh.region)
             out = out[slices]
 
